@@ -2,31 +2,37 @@
 EXTENDS SelfUpdate, Json
 CONSTANTS MaxReleases, Export
 
-\* version codes: 9 = v0.9.0, 10 = v1.0.0, 20 = v2.0.0, 30 = v3.0.0
+\* version codes: V(major, minor, patch) orders like semantic versions as long as every part is below 100
+V(ma, mi, pa) == ma * 10000 + mi * 100 + pa
 Pool == {
-  Rel(20, FALSE, FALSE, "good", "match"),
-  Rel(20, FALSE, FALSE, "good", "mismatch"),
-  Rel(20, FALSE, FALSE, "good", "otherfile"),
-  Rel(20, FALSE, FALSE, "good", "malformed"),
-  Rel(20, FALSE, FALSE, "good", "missing"),
-  Rel(20, FALSE, FALSE, "corrupt", "match"),
-  Rel(20, FALSE, FALSE, "badmember", "match"),
-  Rel(20, FALSE, FALSE, "none", "match"),
-  Rel(20, FALSE, FALSE, "otherarch", "match"),
-  Rel(20, FALSE, FALSE, "archfirst", "match"),
-  Rel(30, FALSE, FALSE, "otherarch", "match"),
-  Rel(30, TRUE,  FALSE, "good", "match"),
-  Rel(30, FALSE, TRUE,  "good", "match"),
-  Rel(30, FALSE, FALSE, "none", "match"),
-  Rel(30, FALSE, FALSE, "good", "mismatch"),
-  Rel(10, FALSE, FALSE, "good", "match"),
-  Rel(9,  FALSE, FALSE, "good", "match"),
-  Rel(9,  FALSE, FALSE, "good", "mismatch")
+  Rel(V(2,0,0), FALSE, FALSE, "good", "match"),
+  Rel(V(2,0,0), FALSE, FALSE, "good", "mismatch"),
+  Rel(V(2,0,0), FALSE, FALSE, "good", "otherfile"),
+  Rel(V(2,0,0), FALSE, FALSE, "good", "malformed"),
+  Rel(V(2,0,0), FALSE, FALSE, "good", "missing"),
+  Rel(V(2,0,0), FALSE, FALSE, "corrupt", "match"),
+  Rel(V(2,0,0), FALSE, FALSE, "badmember", "match"),
+  Rel(V(2,0,0), FALSE, FALSE, "none", "match"),
+  Rel(V(2,0,0), FALSE, FALSE, "otherarch", "match"),
+  Rel(V(2,0,0), FALSE, FALSE, "archfirst", "match"),
+  Rel(V(3,0,0), FALSE, FALSE, "otherarch", "match"),
+  Rel(V(3,0,0), TRUE,  FALSE, "good", "match"),
+  Rel(V(3,0,0), FALSE, TRUE,  "good", "match"),
+  Rel(V(3,0,0), FALSE, FALSE, "none", "match"),
+  Rel(V(3,0,0), FALSE, FALSE, "good", "mismatch"),
+  Rel(V(1,0,0), FALSE, FALSE, "good", "match"),
+  Rel(V(0,9,0), FALSE, FALSE, "good", "match"),
+  Rel(V(0,9,0), FALSE, FALSE, "good", "mismatch"),
+  \* parts with two digits: numeric, not textual order (v2.0.5 < v2.0.12 < v2.0.13 < v2.10.0)
+  Rel(V(2,0,5),  FALSE, FALSE, "good", "match"),
+  Rel(V(2,0,12), FALSE, FALSE, "good", "match"),
+  Rel(V(2,0,13), FALSE, FALSE, "good", "match"),
+  Rel(V(2,10,0), FALSE, FALSE, "good", "mismatch")
 }
 \* catalogues: sequences without two releases of the same version
 MCCatalogues == { <<>> } \cup { <<a>> : a \in Pool }
                 \cup (IF MaxReleases >= 2 THEN { <<p[1], p[2]>> : p \in { q \in Pool \X Pool : q[1].ver # q[2].ver } } ELSE {})
-MCRunnings == {10, 0}
+MCRunnings == {V(1,0,0), V(2,0,12), 0}
 MCFaults   == {"none", "list-500", "list-reset", "list-badjson", "asset-500", "asset-reset", "asset-truncate", "sums-500"}
 
 Outcome == IF out = "updated" THEN [exe |-> exe, ok |-> TRUE]
